@@ -104,18 +104,18 @@ CHECKS = {
    design='DESIGN.md §3 C01'),
  'C03': dict(
    text='Machine-checked proof (Coq): WHOLE DOCUMENTS - a 3.0 document of version line, column line (distinct names) and any number of rows of comma-separated cells is read by the model of the grid rule as exactly the grid it denotes, '
-        'whatever spelling each cell uses, provided the scalar rule reads the cell\'s value from its text before a comma / line end / bracket (C03_whole_document); that proviso is proved for every string and URI with every legal escape, every number spelling '
-        '(sign, digits, fraction, exponent e / e+ / e-, unit), every date and time, the letter scalars, plain references and lists of such elements to any depth. Also: final newline optional for every document, empty input gives no grid, LF and CRLF line ends, z/Z, '
+        'whatever spelling each cell uses, provided the scalar rule reads the cell\'s value from its text before a comma / line end / bracket (C03_whole_document; with grid and column metadata: C03_whole_document_with_metadata; version 2.0 with the reader\'s version gate: C03_whole_document_2_0; one or several grids per document through parser.parse: C03_documents); that proviso is proved for every string and URI with every legal escape, every number spelling '
+        '(sign, digits, fraction, exponent e / e+ / e-, unit), every date and time, the letter scalars, plain references, lists, dicts and nested grids of such elements to any depth. Also: final newline optional for every document, empty input gives no grid, LF and CRLF line ends, z/Z, '
         '_ digit separators, blanks around commas (per rule); further spellings as evaluated examples. Decided otherwise by the reader model vs hszinc.parse on documents of an independent grammar-directed ZINC writer (value x independently chosen spelling: blanks around commas, '
         'empty cells, _ separators, exponents, INF/-INF/NaN, every escape form, CRLF, trailing commas, T/t, Z/z, with / without zone name and final newline), str and bytes in several charsets, single flag.',
-   note='PARTIAL: the whole-document theorem covers metadata-free 3.0 documents with single commas between cells; metadata, dicts, nested grids, date-times, coordinates, Bin, XStr, empty cells, blanks around commas inside whole documents, upper-case E and multi-grid documents rest on the tie + search. The independent writer is harness code (harness/props/c03.py). Charset decoding is CPython\'s. Print Assumptions: closed under the global context.',
+   note='PARTIAL: the whole-document theorems take single commas between cells; empty cells, blanks around commas inside whole documents, _ separators and upper-case E inside whole documents, CRLF inside whole documents and 2.0 documents with metadata rest on the per-rule theorems + the tie + search. The independent writer is harness code (harness/props/c03.py). Charset decoding is CPython\'s. Print Assumptions: closed under the global context.',
    technique='Coq lemmas about the reader model + correspondence and search on independently written documents',
    design='DESIGN.md §3 C03'),
  'C04': dict(
    text='Machine-checked proof (Coq) about the ZINC writer model: a dumped grid is header line, column line, one line per row and a final newline; every row line holds exactly one cell per column; no line and no cell holds a character below U+0020 '
         '(for every grid without nested grids whose verbatim tokens - names, units, number tokens - are clean); the header is ver:"X" (X the escaped version text); a written string holds only escapes the grammar accepts and is accepted '
         'by the literal rule exactly up to its own closing quote; non-finite numbers are INF, -INF, NaN; 3.0-only kinds are refused under a pre-3.0 version. For every metadata-free 3.0 grid over strings, URIs, numbers, dates, times, letter scalars, plain references and nested lists the emitted text '
-        'is accepted by the model of the grid rule and denotes exactly the grid written (C04_grid_conforms). Conformance to the Haystack grammar itself '
+        'is accepted by the model of the grid rule and denotes exactly the grid written (C04_grid_conforms; in general, with metadata, every kind but date-times, dicts and nested grids: C04_grid_conforms_general). Conformance to the Haystack grammar itself '
         'is judged on every dumped grid by an independent recursive-descent ZINC reader written from the Haystack grammar (harness/zincspec.py, shares no code with hszinc), which must recover the same grid.',
    note='PARTIAL: conformance to a grammar relation is not proved in Coq (the independent reader is harness code); nested grids are excluded from the layout theorem (their text spans lines by design). Print Assumptions: closed under the global context.',
    technique='Coq proofs about the writer model (layout by induction over rows / cells, control-character freedom by induction over values) + text-equality correspondence + independent reader',
